@@ -315,10 +315,115 @@ def antiparallel_single(ctx, n):
     ctx.stream("oracle:single-reflection-near-(anti)parallel", n, len(kinds))
 
 
+def mutate_lists(rng, ub, B, U0, rr, ro, good):
+    """a few edits of the two reference lists through the public wrappers, mirrored on the intended data (rr, ro); `good` holds the
+    records that agree with U0.  By-tag look-ups are made first, so that anything remembered about tags is in place."""
+    from diffcalc.hkl.geometry import Position
+    with quiet():
+        for lst, num in ((rr, ub.get_tag_refl_num), (ro, ub.get_tag_orient_num)):
+            for rec in lst:
+                if rec[1] is not None and rng.random() < 0.7:
+                    num(rec[1])
+        for _ in range(rng.randint(1, 3)):
+            which = rng.choice(["R", "O"])
+            lst = rr if which == "R" else ro
+            k = rng.choice(["swap", "swap", "del", "retag", "add"])
+            addr = lambda i: (lst[i][1] if lst[i][1] is not None and [r[1] for r in lst].index(lst[i][1]) == i and rng.random() < 0.5 else i + 1)
+            if k == "swap" and len(lst) >= 2:
+                i, j = rng.sample(range(len(lst)), 2)
+                (ub.swap_reflections if which == "R" else ub.swap_orientations)(addr(i), addr(j))
+                lst[i], lst[j] = lst[j], lst[i]
+            elif k == "del" and len(lst) >= 2:
+                i = rng.randrange(len(lst))
+                (ub.del_reflection if which == "R" else ub.del_orientation)(addr(i))
+                del lst[i]
+            elif k == "retag" and lst:
+                i = rng.randrange(len(lst))
+                tag = rng.choice(["a", "b", "c", "r1", "o1", "1", "2"])
+                kind, _, h, xyz, pos = lst[i]
+                a = addr(i)
+                if which == "R":
+                    ub.edit_reflection(a, tuple(float(x) for x in h), Position(*pos), 12.0, tag)
+                else:
+                    ub.edit_orientation(a, tuple(float(x) for x in h), tuple(float(x) for x in xyz), Position(*pos), tag)
+                rec = (kind, tag, h, xyz, pos)
+                if any(lst[i] is g for g in good):
+                    good.append(rec)
+                lst[i] = rec
+            elif k == "add":
+                # a record that does NOT agree with U0 (a bad reflection kept in the list)
+                tag = rng.choice(["a", "b", "c", "x", "y", None])
+                pos = rand_pos(rng, "six")
+                h = rand_hkl(rng)
+                if which == "R":
+                    ub.add_reflection(tuple(float(x) for x in h), Position(*pos), 12.0, tag)
+                    rr.append(("R", tag, h, None, pos))
+                else:
+                    xyz = np.array([rng.uniform(-1, 1) for _ in range(3)]) + np.array([0.0, 1.5, 0.0])
+                    ub.add_orientation(tuple(float(x) for x in h), tuple(float(x) for x in xyz), Position(*pos), tag)
+                    ro.append(("O", tag, h, xyz, pos))
+
+
+def judge(ub, U0, B, rr, ro, a1, a2, consistent, before, r, sel):
+    """the clauses of the property for one calc_ub call whose documented selection is `sel`"""
+    bad = None
+    if sel[0] == "two":
+        _, r1, r2 = sel
+        c1, c2 = B @ r1[2], B @ r2[2]
+        p1, p2 = uphi(r1), uphi(r2)
+        nc = np.linalg.norm(np.cross(unit(c1), unit(c2)))
+        npp = np.linalg.norm(np.cross(unit(p1), unit(p2)))
+        if r1 is r2 or nc < 1e-9 or npp < 1e-9:
+            if r[0] != "dce":
+                bad = f"parallel references were not rejected with DiffcalcException (got {r[0]})"
+        elif nc < 1e-3 or npp < 1e-3 or min(np.linalg.norm(np.cross(c1, c2)), np.linalg.norm(np.cross(p1, p2))) < 1e-5:
+            pass    # near the threshold either outcome is legitimate
+        elif r[0] != "ok":
+            bad = f"raised {r[0]}: {r[1][:80]}"
+        else:
+            U = r[1]
+            if not is_rot(U):
+                bad = "U is not a proper rotation"
+            elif np.max(np.abs(np.asarray(ub.UB, float) - U @ B)) > 1e-9:
+                bad = "UB differs from U.B"
+            elif consistent and np.max(np.abs(U - U0)) > 1e-8 / min(nc, npp):
+                bad = f"U differs from the true orientation U0 by {np.max(np.abs(U - U0)):.3g}"
+            elif np.max(np.abs(U @ unit(c1) - unit(p1))) > 1e-9:
+                bad = "the direction of the first reference is not reproduced"
+            else:
+                perp = lambda v, a: v - (v @ a) * a
+                w = unit(perp(U @ unit(c2), unit(p1))); t = unit(perp(unit(p2), unit(p1)))
+                if np.max(np.abs(w - t)) > 1e-7 / min(nc, npp):
+                    bad = "the second reference does not fix the azimuth about the first (U.B.h2 is not in the half-plane of u1, u2)"
+    elif sel[0] == "one":
+        rec = sel[1]
+        c, p = unit(B @ rec[2]), unit(uphi(rec))
+        s = np.linalg.norm(np.cross(c, p))
+        if s > 1e-4:
+            if r[0] != "ok":
+                bad = f"single reflection: raised {r[0]}: {r[1][:80]}"
+            elif not is_rot(r[1], 1e-8):
+                bad = "single reflection: U is not a proper rotation"
+            elif np.max(np.abs(r[1] @ c - p)) > 1e-8:
+                bad = "single reflection: U does not reproduce the reflection"
+            elif np.max(np.abs(np.asarray(ub.UB, float) - r[1] @ B)) > 1e-9:
+                bad = "single reflection: UB differs from U.B"
+    elif sel[0] == "dce":
+        if r[0] != "dce":
+            bad = f"no usable pair of references, expected DiffcalcException, got {r[0]}"
+    if bad is None and r[0] != "ok":
+        after = (None if ub.U is None else np.array(ub.U, float), None if ub.UB is None else np.array(ub.UB, float))
+        for x, y, nm in ((before[0], after[0], "U"), (before[1], after[1], "UB")):
+            if (x is None) != (y is None) or (x is not None and not np.array_equal(x, y)):
+                bad = f"rejected call ({r[0]}) changed {nm}"
+    return bad
+
+
 def oracle(ctx, widen=1):
     antiparallel_single(ctx, ctx.scale(150, 6000) * widen)
     n = ctx.scale(400, 20000) * widen
     kinds = set()
+    calls = 0
     for i in range(n):
         mode = ctx.rng.choice(["cons", "cons", "cons", "incons", "parallel", "single"])
         if mode == "single":
@@ -331,71 +436,38 @@ def oracle(ctx, widen=1):
         else:
             ub, U0, B, rr, ro = build(ctx.rng, consistent=(mode == "cons"), parallel=(mode == "parallel"))
             (a1, a2), form = choose_args(ctx.rng, rr, ro)
+        good = list(rr + ro) if mode == "cons" else []      # the records that agree with U0 (kept alive: identity is what is compared)
         preset = ctx.rng.random() < 0.5
         if preset:
             with quiet():
                 ub.set_u(rot_from_rotvec([0.1, 0.2, -0.3]))
-        before = (None if ub.U is None else np.array(ub.U, float), None if ub.UB is None else np.array(ub.UB, float))
-        sel = expected_selection(rr, ro, a1, a2)
-        r = call(ub, a1, a2)
-        kinds.add((mode, len(rr), len(ro), form, sel[0], r[0]))
-        bad = None
-        desc = f"{len(rr)} reflections + {len(ro)} orientations, calc_ub({a1!r}, {a2!r}), {mode} data"
-        if sel[0] == "two":
-            _, r1, r2 = sel
-            c1, c2 = B @ r1[2], B @ r2[2]
-            p1, p2 = uphi(r1), uphi(r2)
-            nc = np.linalg.norm(np.cross(unit(c1), unit(c2)))
-            npp = np.linalg.norm(np.cross(unit(p1), unit(p2)))
-            if r1 is r2 or nc < 1e-9 or npp < 1e-9:
-                if r[0] != "dce":
-                    bad = f"parallel references were not rejected with DiffcalcException (got {r[0]})"
-            elif nc < 1e-3 or npp < 1e-3 or min(np.linalg.norm(np.cross(c1, c2)), np.linalg.norm(np.cross(p1, p2))) < 1e-5:
-                pass    # near the threshold either outcome is legitimate
-            elif r[0] != "ok":
-                bad = f"raised {r[0]}: {r[1][:80]}"
-            else:
-                U = r[1]
-                if not is_rot(U):
-                    bad = "U is not a proper rotation"
-                elif np.max(np.abs(np.asarray(ub.UB, float) - U @ B)) > 1e-9:
-                    bad = "UB differs from U.B"
-                elif mode == "cons" and np.max(np.abs(U - U0)) > 1e-8 / min(nc, npp):
-                    bad = f"U differs from the true orientation U0 by {np.max(np.abs(U - U0)):.3g}"
-                elif np.max(np.abs(U @ unit(c1) - unit(p1))) > 1e-9:
-                    bad = "the direction of the first reference is not reproduced"
-                else:
-                    perp = lambda v, a: v - (v @ a) * a
-                    w = unit(perp(U @ unit(c2), unit(p1))); t = unit(perp(unit(p2), unit(p1)))
-                    if np.max(np.abs(w - t)) > 1e-7 / min(nc, npp):
-                        bad = "the second reference does not fix the azimuth about the first (U.B.h2 is not in the half-plane of u1, u2)"
-        elif sel[0] == "one":
-            rec = sel[1]
-            c, p = unit(B @ rec[2]), unit(uphi(rec))
-            s = np.linalg.norm(np.cross(c, p))
-            if s > 1e-4:
-                if r[0] != "ok":
-                    bad = f"single reflection: raised {r[0]}: {r[1][:80]}"
-                elif not is_rot(r[1], 1e-8):
-                    bad = "single reflection: U is not a proper rotation"
-                elif np.max(np.abs(r[1] @ c - p)) > 1e-8:
-                    bad = "single reflection: U does not reproduce the reflection"
-                elif np.max(np.abs(np.asarray(ub.UB, float) - r[1] @ B)) > 1e-9:
-                    bad = "single reflection: UB differs from U.B"
-        elif sel[0] == "dce":
-            if r[0] != "dce":
-                bad = f"no usable pair of references, expected DiffcalcException, got {r[0]}"
-        if bad is None and r[0] != "ok":
-            after = (None if ub.U is None else np.array(ub.U, float), None if ub.UB is None else np.array(ub.UB, float))
-            for x, y, nm in ((before[0], after[0], "U"), (before[1], after[1], "UB")):
-                if (x is None) != (y is None) or (x is not None and not np.array_equal(x, y)):
-                    bad = f"rejected call ({r[0]}) changed {nm}"
-        if bad:
-            ctx.violation(f"{desc}: {bad}", {"line": wire(B, rr, ro, a1, a2), "a1": a1, "a2": a2, "mode": mode, "U0": U0.tolist(),
-                                             "reflections": [[t, list(map(float, h)), list(p)] for _, t, h, _, p in rr],
-                                             "orientations": [[t, list(map(float, h)), list(map(float, x)), list(p)] for _, t, h, x, p in ro]},
-                          {"kind": "calc_ub", "what": bad.split(":")[0][:40]})
-    ctx.stream("oracle:calc_ub", n, len(kinds))
+        # the same calculation object goes on being used: its lists are edited (swapped, re-tagged, shortened, a bad record added) and
+        # calc_ub is asked again — the references an address designates are those of the list as it is now
+        for rnd in range(ctx.rng.choice([1, 1, 2, 3])):
+            if rnd:
+                try:
+                    mutate_lists(ctx.rng, ub, B, U0, rr, ro, good)
+                except Exception as e:  # noqa
+                    ctx.violation(f"editing the reference lists of a calculation raised {type(e).__name__}: {e}",
+                                  {"line": wire(B, rr, ro, a1, a2), "mode": mode}, {"kind": "calc_ub", "what": "list edit raised"})
+                    break
+                (a1, a2), form = choose_args(ctx.rng, rr, ro)
+                form = "after-edits:" + form
+            before = (None if ub.U is None else np.array(ub.U, float), None if ub.UB is None else np.array(ub.UB, float))
+            sel = expected_selection(rr, ro, a1, a2)
+            r = call(ub, a1, a2)
+            calls += 1
+            kinds.add((mode, len(rr), len(ro), form, sel[0], r[0]))
+            desc = f"{len(rr)} reflections + {len(ro)} orientations, calc_ub({a1!r}, {a2!r}), {mode} data" + (", after list edits on the same object" if rnd else "")
+            consistent = mode == "cons" and all(any(x is g for g in good) for x in sel[1:] if x is not None)
+            bad = judge(ub, U0, B, rr, ro, a1, a2, consistent, before, r, sel)
+            if bad:
+                ctx.violation(f"{desc}: {bad}", {"line": wire(B, rr, ro, a1, a2), "a1": a1, "a2": a2, "mode": mode, "U0": U0.tolist(), "round": rnd,
+                                                 "reflections": [[t, list(map(float, h)), list(p)] for _, t, h, _, p in rr],
+                                                 "orientations": [[t, list(map(float, h)), list(map(float, x)), list(p)] for _, t, h, x, p in ro]},
+                              {"kind": "calc_ub", "what": bad.split(":")[0][:40]})
+                break
+    ctx.stream("oracle:calc_ub", calls, len(kinds), objects=n)
 
 
 def replay(ctx, data):
